@@ -18,6 +18,14 @@ checks.update({
    text="Random create/add/reopen/extend sequences on 1-3 writer handles (names 1..4096 arbitrary bytes, values incl. 2^64-1, metadata up to and over the cap, growth over many pages): after every operation the raw bytes must satisfy the strict independent decoder and equal the model; place(limit,len) is swept over every 32-aligned limit of a page period x every name length 1..4096 against the layout rule; files from the independent writer must be opened, read and extended by the library; concurrent writers are covered by re-running the C04 schedule harness.",
    note="Trusts /verif/ref (reader+writer written from the documented layout). The placement sweep is complete only for the stated sub-domain (page indices listed in the evidence).", ref="§2 C10"),
 })
+checks.update({
+ "C09": dict(cat="exploration", tech="runtime monitoring with an injected clock: differential oracle (civil-calendar arithmetic without package time) over an exhaustive day sweep; file-system observation of rotation",
+   text="counterSpan is evaluated under a controlled CounterTime for every day 1990..2069 x all seven settings x boundary times of day and compared with days-from-civil arithmetic; malformed/missing settings (every first byte 0..255 and more) are judged on the universally stated part only; sampled full opens check file name date, metadata (independent decoder) and the returned expiry; rotation is driven across end-1ns/end/end+1ns/+3d/+7d and the placement of increments checked in the files. (Uploader-side agreement is added by the upload harness.)",
+   note="Clock = CounterTime test variable returning UTC; exhaustive only for the stated calendar range and settings.", ref="§2 C09"),
+ "C15": dict(cat="exploration", tech="runtime monitoring of real call stacks from generated call programs (3 generated packages overlaid at odd import paths) + race detector on the cache; loop-tick budget on the decoder",
+   text="3k (quick) / 200k (thorough) byte-coded call programs over 44 callees (functions, value/pointer methods, generics, generic-type methods, closures, same-package adjacency) in packages with dotted/dashed//v2/deep import paths: two Incs from one stack hit one counter; stacks differing in any frame's (symbol,file,line,offset) get different untruncated names; length <= 4096 at every truncation alignment; marker => uncompressed > 4096, no marker => all frames present; each decoded line = the frame's full symbol + well-formed location; Parse/ReadStack return expanded names; DecodeStack/IsStackCounter on 20k/1M generated strings under a tick budget; concurrent Inc under -race keeps counts.",
+   note="Frames cannot be synthesised for runtime.CallersFrames, so reach is what the generated call programs produce. Distinctness is judged at the granularity the runtime can symbolise (two instantiations of one generic function are one 'stack').", ref="§2 C15"),
+})
 todo = {
 }
 names = ["C%02d" % i for i in range(1, 20)]
